@@ -11,7 +11,7 @@ T = {
    "trusts dpkg 1.21.22 as 'dpkg' and internal/model/vercmp.go (cross-checked against dpkg at run time)"),
  "C02": ("exploration", "runtime law monitor (reflexivity, antisymmetry, transitivity, congruence) over all triples of a version pool; sort monitor with counting sort.Interface wrapper",
    "Order laws are checked on every triple of a pool of versions (exhaustive over pool^3) and on sorted slices from several shuffles; no reference model is involved, so it stays valid even if C01's model were wrong.",
-   "pool is finite (48 quick / 160 thorough versions incl. equivalence-class mates and tilde chains)"),
+   "pool is finite (96 quick / 176 thorough versions incl. equivalence-class mates and tilde chains)"),
  "C03": ("exploration", "runtime parse differential against a grammar model + render/re-parse round-trip monitor on every accepted string",
    "Grammar-built strings must parse to their parts; listed invalid classes must be rejected; every accepted string must survive String/MarshalControl/MarshalText/json round trips. Thorough adds coverage-guided native fuzzing with the round-trip oracle.",
    "grammar model from Policy 5.6.12"),
